@@ -49,7 +49,24 @@ class LMBase(LightNodeMixin):
         return "Gen(%s)" % (self.name,)
 
 
-BASES = {"Node": Node, "NMBase": NMBase, "LMBase": LMBase}
+class ListBase(Node, list):
+    """A node class that is also a list (empty): the built-in container protocol instead of hand-written methods."""
+
+
+class TupleBase(NodeMixin, tuple):
+    def __new__(cls, name):
+        return tuple.__new__(cls, (name,))
+
+    def __init__(self, name):
+        self.name = name
+
+    def __repr__(self):
+        return "Gen(%s)" % (self.name,)
+
+
+BASES = {"Node": Node, "NMBase": NMBase, "LMBase": LMBase, "ListBase": ListBase, "TupleBase": TupleBase}
+# the reference universe of a container-derived base is built from the corresponding ordinary base
+PLAIN_BASE = {"ListBase": Node, "TupleBase": NMBase}
 
 
 class Boom(Exception):
@@ -88,7 +105,7 @@ def make_classes(case):
         ns["__slots__"] = ()
         plain_ns["__slots__"] = ()
     adv = type("Gen", (base,), ns)
-    plain = type("Gen", (base,), plain_ns)
+    plain = type("Gen", (PLAIN_BASE.get(case["base"], base),), plain_ns)
     return adv, plain, calls
 
 
@@ -142,7 +159,7 @@ def check_case(case, acc):
             for rec, uni, cls in ((rec_a, uni_a, adv if op[2] else plain), (rec_b, uni_b, plain)):
                 mut.CURRENT[0] = rec
                 try:
-                    if case["base"] == "Node":
+                    if case["base"] in ("Node", "ListBase"):
                         new = cls("n%d" % len(uni), parent=uni[plabel])
                     else:
                         new = cls("n%d" % len(uni))
@@ -170,7 +187,7 @@ def check_case(case, acc):
             raise Violation("structure", "%s: generated class -> %s, plain class -> %s" % (ctx, res[0][1], res[1][1]))
         if calls:
             raise Violation("special-method-invoked", "%s invoked %s" % (ctx, dict(calls)))
-    dict_based = case["base"] != "LMBase"
+    dict_based = case["base"] in ("Node", "NMBase", "ListBase")
     mut.CURRENT[0] = rec_a
     obs_a = observe(uni_a, rec_a.labels)
     ext_a = extra_observe(uni_a, rec_a.labels, dict_based)
@@ -199,7 +216,12 @@ FIXED_STEPS = [{"op": ["ctor", 2, True]}, {"op": ["ctor", 0, True]}, {"op": ["pa
 
 def _systematic_cases(index, count):
     k = 0
-    for base in sorted(BASES):
+    for base in ("ListBase", "TupleBase"):
+        # no hand-written methods needed: list/tuple bring their own __eq__/__len__/__iter__/__contains__/__getitem__
+        k += 1
+        if k % count == index:
+            yield {"base": base, "methods": {}, "n": 6, "state": FIXED_STATE, "steps": FIXED_STEPS}
+    for base in ("LMBase", "NMBase", "Node"):
         for name in SPECIALS:
             for behaviour in BEHAVIOURS + (["unhashable"] if name == "__hash__" else []):
                 k += 1
@@ -217,7 +239,9 @@ def _systematic_cases(index, count):
 @st.composite
 def random_cases(draw):
     base = draw(st.sampled_from(sorted(BASES)))
-    names = draw(st.lists(st.sampled_from(SPECIALS), min_size=1, max_size=12, unique=True))
+    names = draw(st.lists(st.sampled_from(SPECIALS), min_size=0 if base in PLAIN_BASE else 1, max_size=12, unique=True))
+    if base in PLAIN_BASE:
+        names = [n for n in names if n != "__hash__"]
     methods = {}
     for name in names:
         methods[name] = draw(st.sampled_from(BEHAVIOURS + (["unhashable"] if name == "__hash__" else [])))
